@@ -39,7 +39,7 @@ theorem gcStep_forest (acc : Ctx × Option Nat) (k : Nat) (hF : Forest acc.1.seg
 
 theorem gc_forest (c : Ctx) (a : Option Nat) (hF : Forest c.seg) (hc : ∀ k x, c.smap.getD k none = some x → x < c.seg.slots.size) :
     Forest (collectGarbage c a).1.seg := by
-  unfold collectGarbage
+  rw [collectGarbage_fst]; unfold gcCells
   generalize (List.range (c.size - 1)) = ks
   have : ∀ (ks : List Nat) (acc : Ctx × Option Nat), Forest acc.1.seg →
       (∀ k x, acc.1.smap.getD k none = some x → x < acc.1.seg.slots.size) → Forest (ks.foldl gcStep acc).1.seg := by
